@@ -340,3 +340,77 @@ def unsorted_meshes(model: Model, prefix: str = "skfem/"):
             if isinstance(v, ast.Constant) and v.value is False:
                 out.append((fn, call, _escapes(fn, call, "sort_t")))
     return out
+
+
+# ----------------------------------------------------------------------
+def oriented_remaps(model: Model):
+    """Functions under skfem/mesh that carry named boundaries over to a new
+    facet numbering (they read the index arrays of ``self.boundaries`` /
+    ``self._boundaries`` and build new ones).  A named boundary may be an
+    ``OrientedBoundary`` (index array + per-facet flag ``ori`` saying on
+    which side of the facet the designated cell lies); indexing, sorting or
+    re-building the indices yields a plain array, and the flags would also
+    have to be recomputed against the new ``f2t``.  Returns
+    [(function, handles orientation?)]."""
+    out = []
+    for fn in model.all_functions():
+        if not fn.path.startswith("skfem/mesh/") or fn.cls is None:
+            continue
+        reads = False
+        for n in walk_no_nested(fn.node):
+            # for name, ixs in self._boundaries.items() / self.boundaries[k]
+            if isinstance(n, ast.Attribute) and n.attr in (
+                    "boundaries", "_boundaries") and isinstance(
+                    n.value, ast.Name) and n.value.id == "self":
+                reads = True
+        if not reads:
+            continue
+        # builds new index arrays from the old ones: a dict (comprehension or
+        # item stores) whose values subscript / transform the old arrays
+        builds = False
+        for n in walk_no_nested(fn.node):
+            if isinstance(n, ast.DictComp):
+                it = " ".join(src(g.iter) for g in n.generators)
+                if ("self.boundaries" in it or "self._boundaries" in it) \
+                        and not isinstance(n.value, ast.Name):
+                    builds = True
+            if isinstance(n, ast.Assign) and isinstance(
+                    n.targets[0], ast.Subscript) and "boundaries" in src(
+                    n.targets[0].value) and (
+                    "self.boundaries" in src(n.value)
+                    or "self._boundaries" in src(n.value)):
+                builds = True
+        if not builds:
+            continue
+        handles = any(
+            (isinstance(n, ast.Attribute) and n.attr == "ori")
+            or (isinstance(n, ast.Call) and src(n.func) == "isinstance"
+                and len(n.args) == 2
+                and "OrientedBoundary" in src(n.args[1]))
+            or (isinstance(n, ast.Call) and "OrientedBoundary" in src(n.func))
+            for n in ast.walk(fn.node))
+        out.append((fn, handles))
+    return out
+
+
+def report_oriented_remaps(model: Model, rep, rule: str, select) -> int:
+    n = 0
+    for fn, handles in oriented_remaps(model):
+        if not select(fn):
+            continue
+        n += 1
+        cons = f"{fn.short()}:oriented-boundaries"
+        if handles:
+            rep.ok(rule, cons, "carries the orientation flags over (or "
+                               "rebuilds them)")
+        else:
+            rep.fail(rule, fn.path, fn.short(), cons,
+                     "carries the facet indices of every named boundary "
+                     "over to the new numbering but not the orientation "
+                     "flags of an OrientedBoundary (interfaces from "
+                     "facets_around, facets_satisfying(normal=...), mesh "
+                     "files): the name comes back as a plain index array, "
+                     "i.e. every facet now designates side 0 of f2t - "
+                     "traces and normals are taken from the other side "
+                     "where the flag was 1", fn.lineno)
+    return n
